@@ -133,7 +133,12 @@ def hash_mutable(obj) -> int:
         return hash(obj.tobytes())
 
     if isinstance(obj, slice):
-        return hash((obj.start, obj.stop, obj.step))
+        return _hash_iter(hash_mutable(v) for v in (obj.start, obj.stop, obj.step))
+
+    if isinstance(obj, numbers.Number) and not isinstance(obj, bool):
+        # hash the representation since simple numbers have colliding hashes, e.g.,
+        # hash(-1) == hash(-2)
+        return hash((obj.__class__.__name__, repr(obj)))
 
     try:
         # try using the internal hash function
